@@ -193,6 +193,37 @@ func init() {
 		d, rem, err := lease_set.ReadDestinationFromLeaseSet(in)
 		return Parsed{OK: err == nil, Err: errStr(err), HasRem: true, Rem: rem, Ser: d.Bytes, Val: d}
 	})
+	// composite routes to the same structures (conversions and wrapping constructors)
+	add("router_identity.ReadRouterIdentity+AsDestination", "Destination", func(in []byte) Parsed {
+		r, rem, err := router_identity.ReadRouterIdentity(in)
+		if err != nil || r == nil {
+			return Parsed{OK: false, Err: errStr(err), HasRem: true, Rem: rem}
+		}
+		d := r.AsDestination()
+		return Parsed{OK: true, HasRem: true, Rem: rem, Ser: d.Bytes, Val: d}
+	})
+	add("destination.NewDestination(ReadKeysAndCert)", "Destination", func(in []byte) Parsed {
+		k, rem, err := keys_and_cert.ReadKeysAndCert(in)
+		if err != nil || k == nil {
+			return Parsed{OK: false, Err: errStr(err), HasRem: true, Rem: rem}
+		}
+		d, err := destination.NewDestination(k)
+		if err != nil || d == nil {
+			return Parsed{OK: false, Err: errStr(err), HasRem: true, Rem: rem}
+		}
+		return Parsed{OK: true, HasRem: true, Rem: rem, Ser: d.Bytes, Val: d}
+	})
+	add("router_identity.NewRouterIdentityFromKeysAndCert(ReadKeysAndCert)", "RouterIdentity", func(in []byte) Parsed {
+		k, rem, err := keys_and_cert.ReadKeysAndCert(in)
+		if err != nil || k == nil {
+			return Parsed{OK: false, Err: errStr(err), HasRem: true, Rem: rem}
+		}
+		r, err := router_identity.NewRouterIdentityFromKeysAndCert(k)
+		if err != nil || r == nil || r.KeysAndCert == nil {
+			return Parsed{OK: false, Err: errStr(err), HasRem: true, Rem: rem}
+		}
+		return Parsed{OK: true, HasRem: true, Rem: rem, Ser: r.KeysAndCert.Bytes, Val: r}
+	})
 	add("router_identity.ReadRouterIdentity", "RouterIdentity", func(in []byte) Parsed {
 		r, rem, err := router_identity.ReadRouterIdentity(in)
 		p := Parsed{OK: err == nil && r != nil, Err: errStr(err), HasRem: true, Rem: rem, Val: r}
